@@ -53,7 +53,7 @@ Section Native.
     | RenderAsync => render_async is_async pieces
     | Render =>
         if is_async then render_async is_async pieces   (* asyncio.run(self.render_async(...)) *)
-        else RVal (native_concat pieces)                (* concat(self.root_render_func(ctx)) *)
+        else RVal (native_concat pieces)                (* concat(list(self.root_render_func(ctx))): eager, like render_async *)
     end.
 
   (* NativeCodeGenerator: adjacent constant outputs are emitted as one string
